@@ -135,6 +135,7 @@ static void calc_iauth_flags(void)
 
     /* Clear flags that do not make sense. */
     BITSET_CLEAR(iauth_flags, IAUTH_RESPONDED);
+    BITSET_CLEAR(iauth_flags, IAUTH_TIMED_OUT);
 }
 
 /** Registers a decision module with the main IAuth module.
@@ -247,7 +248,8 @@ void iauth_check_request(struct iauth_request *request)
     if (request->holds == 0
         && !BITSET_GET(request->flags, IAUTH_RESPONDED)
         && !BITSET_H_ANDNOT(iauth_flags, request->flags)) {
-        if (request->soft_holds == 0)
+        if (request->soft_holds == 0
+            || BITSET_GET(request->flags, IAUTH_TIMED_OUT))
             iauth_accept(request);
         else if (!BITSET_GET(request->flags, IAUTH_SOFT_DONE)) {
             log_message(iauth_log, LOG_DEBUG, " -> client %d still has %d soft hold(s)",
@@ -441,7 +443,7 @@ static void iauth_req_cleanup(void *ptr)
 static void iauth_timeout(evutil_socket_t sock, short event, void *datum)
 {
     struct iauth_request *req = datum;
-    req->soft_holds = 0;
+    BITSET_SET(req->flags, IAUTH_TIMED_OUT);
     iauth_check_request(req);
     (void)sock; (void)event;
 }
